@@ -266,10 +266,17 @@ class Scenario:
             a = list(its)
             a[p] = fsig
             emit("foreign-sig@%d" % p, *put(a))
-            a = list(its)
-            sg = a[p]
-            a[p] = sg[:-1] + bytes([sg[-1] ^ 0x02]) if len(sg) != 64 else sg + b"\x02"
-            emit("flip-sighash@%d" % p, *put(a))
+            sg = its[p]
+            # the hash-type byte says something else than what was signed: another type, the ANYONECANPAY bit, and 0x00 (which no
+            # ECDSA digest treats as ALL, and which BIP341 refuses on a 65-byte signature)
+            if len(sg) != 64:
+                flips = [("", sg[:-1] + bytes([sg[-1] ^ 0x02])), ("-zero", sg[:-1] + b"\x00"), ("-acp", sg[:-1] + bytes([sg[-1] ^ 0x80]))]
+            else:
+                flips = [("", sg + b"\x02"), ("-zero", sg + b"\x00"), ("-all", sg + b"\x01")]
+            for fl, alt in flips:
+                a = list(its)
+                a[p] = alt
+                emit("flip-sighash%s@%d" % (fl, p), *put(a))
             a = list(its)
             a[p] = b""
             emit("empty-sig@%d" % p, *put(a))
